@@ -438,13 +438,22 @@ class ImplWorld:
             # script form: vr w e <eps hex> ; annotated for the model: vr w v [ i j ... ]
             w = T.next(); e = T.next(); eps = float.fromhex(T.next())
             em = V[e]; c = em.complex(); ss = list(c.simplicesOfOrder(0))
+            # the call first, on the state the script built -- the close pairs handed to the model are worked out
+            # afterwards (reading a position caches it: done before the call it would change what the call sees)
+            exc = None
+            try:
+                res = em.vietorisRipsComplex(eps)
+            except Exception as ex_:
+                exc = ex_
             pairs = []
             for i in range(len(ss) - 1):
                 for j in range(i + 1, len(ss)):
                     if em.distance(em.positionOf(ss[i]), em.positionOf(ss[j])) <= eps:
                         pairs += [i, j]
             self.annot = 'vr %s %s [ %s ]' % (w, self.embcx[e], ' '.join(map(str, pairs)))
-            V[w] = em.vietorisRipsComplex(eps); return None
+            if exc is not None:
+                raise exc
+            V[w] = res; return None
         if kw == 'gen':
             g = T.next(); v = T.next(); n = T.nat(); id = T.optname(); a = self.attr(T)
             c = V.get(v)
@@ -518,10 +527,20 @@ class ImplWorld:
             V[T.next()].setMinimumIndex(); return None
         if kw == 'max':
             V[T.next()].setMaximumIndex(); return None
-        if kw in ('emb', 'embm'):
+        if kw in ('emb', 'embm', 'embp'):
             e = T.next(); v = T.next(); dim = T.nat()
             metric = T.next() if kw == 'embm' else None
-            V[e] = CountingEmbedding(V[v], dim, metric); self.embcx[e] = v
+            if kw == 'embp':
+                # the library's own class, not a subclass: nothing overridden on the class (code paths that ask
+                # "is this the default metric / the default hook?" see the defaults); the hook is logged per instance
+                em_ = Embedding(V[v], dim); em_.calls = []; em_._metric = None
+                def _logged(s_, _orig=em_.computePositionOf, _log=em_.calls):
+                    _log.append(s_); return _orig(s_)
+                em_.computePositionOf = _logged
+                V[e] = em_
+            else:
+                V[e] = CountingEmbedding(V[v], dim, metric)
+            self.embcx[e] = v
             self.annot = 'emb %s %s %d' % (e, v, dim); return None
         if kw == 'pos':
             e = T.next(); s = T.name(); p = T.lst(lambda: float.fromhex(T.next()))
